@@ -17,7 +17,7 @@ Require Import Grits.Base Grits.Forms Grits.Expand Grits.TcTop Grits.Runtime.
 Require Import Grits.RuntimeFootprint Grits.proofs.RuntimeFacts Grits.proofs.Diamond Grits.proofs.Determinism Grits.proofs.AsyncSync Grits.proofs.RuntimeCheckFacts Grits.proofs.ForkJoin Grits.proofs.DeterminismExamples.
 Require Import Grits.Tc Grits.spec.RtTyping Grits.spec.Topo Grits.proofs.RtSafety Grits.proofs.RtInit Grits.proofs.RtTheorems Grits.proofs.DeterminismTyped Grits.proofs.TopoLin Grits.proofs.TopoStep Grits.proofs.TopoReach Grits.proofs.InitLinear.
 Require Import Grits.spec.SynOk Grits.proofs.RtTcSyn Grits.proofs.RtTheoremsTc Grits.proofs.DeterminismTc.
-Require Import Grits.proofs.LinBridge Grits.proofs.InitAccept Grits.proofs.DeterminismAccept Grits.proofs.TopoStepExt Grits.proofs.TopoFinish.
+Require Import Grits.proofs.LinBridge Grits.proofs.InitAccept Grits.proofs.DeterminismAccept Grits.proofs.TopoStepExt Grits.proofs.TopoFinish Grits.proofs.TopoDup.
 
 Theorem C03_step_is_move : forall md D F c ch, step md D F c ch = sres_of c (move_of md D F c ch).
 Proof. exact step_move. Qed.
@@ -531,6 +531,15 @@ Theorem C03_topo_dropfwd_recv : forall D F teq, teq_laws D teq -> forall Δ c p 
   on_message p pp m = EOk e -> Topo (apply_effect (put_msg c k st None) p pp e).
 Proof. exact topo_dropfwd_recv. Qed.
 
+(* the DUP step: a process with several providers ends and leaves its copies and, for every free name, a
+   forward providing the fresh channels of that name (TopoDup.v; DupSubst.v for what the column
+   substitution does to the channels of the body) *)
+Theorem C03_topo_dup_step : forall D F teq Δ c p pp md c',
+  cfg_typed D F teq Δ c -> Topo c -> ns_ok c -> procs c !! p = Some pp -> affr None (pr_body0 pp) ->
+  NoDup (cids_of (pr_provs pp)) -> action_of md D pp = ADup ->
+  step md D F c (Run p) = SStep c' -> Topo c'.
+Proof. exact topo_dup_step. Qed.
+
 Print Assumptions C03_init_linear_accept.
 Print Assumptions C03_topo_runs_core_accept.
 Print Assumptions C03_determinism_core_accept.
@@ -544,3 +553,4 @@ Print Assumptions C03_drop_child_unref.
 Print Assumptions C03_topo_send_gc.
 Print Assumptions C03_topo_gc_recv.
 Print Assumptions C03_topo_dropfwd_recv.
+Print Assumptions C03_topo_dup_step.
